@@ -724,7 +724,7 @@ def main():
                 for combo in combos:
                     if combo[0] == 'flat' and pl == 'sub':
                         continue
-                    odd = (si + pi) % 5 == 0
+                    odd = {0: True, 1: 'colon'}.get((si + pi) % 5, False)
                     jobs.append(('gen', idx, spec, pl, odd, combo))
                     idx += 1
     if ck.want('gen'):
